@@ -122,7 +122,8 @@ func (g *Gen) concreteName(class int) string {
 		case ncBrace:
 			s = w() + "{" + w() + "}"
 		default:
-			s = w() + []string{"/", "~", " ", "#", "?", "[", "{", "é", "~1", "~0"}[g.r.Intn(10)] + w() + []string{"/", "~", " ", "]", "}", "", ""}[g.r.Intn(7)] + w()
+			// (plus a few URL sub-delimiters the properties do not exclude: '+', '&', '=')
+			s = w() + []string{"/", "~", " ", "#", "?", "[", "{", "é", "~1", "~0", "+", "&", "="}[g.r.Intn(13)] + w() + []string{"/", "~", " ", "]", "}", "", ""}[g.r.Intn(7)] + w()
 		}
 		if try > 5 {
 			s += strconv.Itoa(g.r.Intn(1000))
